@@ -1,7 +1,7 @@
 // wrappers: theta bit packing kernels (bit_packing.hpp)
 #include "bit_packing.hpp"
 using namespace datasketches;
-W void w_pack_block8(const uint64_t* values, uint8_t* buf, uint8_t bits) { pack_bits_block8(values, buf, bits); }
-W void w_unpack_block8(uint64_t* values, const uint8_t* buf, uint8_t bits) { unpack_bits_block8(values, buf, bits); }
-W uint8_t w_pack_bits(uint64_t value, uint8_t bits, uint8_t* buf, uint32_t* pos, uint8_t offset) { uint8_t* p = buf + *pos; uint8_t o = pack_bits(value, bits, p, offset); *pos = (uint32_t)(p - buf); return o; }
-W uint8_t w_unpack_bits(uint64_t* value, uint8_t bits, const uint8_t* buf, uint32_t* pos, uint8_t offset) { const uint8_t* p = buf + *pos; uint8_t o = unpack_bits(*value, bits, p, offset); *pos = (uint32_t)(p - buf); return o; }
+WRAP void w_pack_block8(const uint64_t* values, uint8_t* buf, uint8_t bits) { pack_bits_block8(values, buf, bits); }
+WRAP void w_unpack_block8(uint64_t* values, const uint8_t* buf, uint8_t bits) { unpack_bits_block8(values, buf, bits); }
+WRAP uint8_t w_pack_bits(uint64_t value, uint8_t bits, uint8_t* buf, uint32_t* pos, uint8_t offset) { uint8_t* p = buf + *pos; uint8_t o = pack_bits(value, bits, p, offset); *pos = (uint32_t)(p - buf); return o; }
+WRAP uint8_t w_unpack_bits(uint64_t* value, uint8_t bits, const uint8_t* buf, uint32_t* pos, uint8_t offset) { const uint8_t* p = buf + *pos; uint8_t o = unpack_bits(*value, bits, p, offset); *pos = (uint32_t)(p - buf); return o; }
